@@ -270,7 +270,7 @@ func runC19Fanout(ctx *core.Ctx) {
 		}
 	}
 	// ---- seeded random schedules chosen by the harness (with blocked-step probes)
-	nr := ctx.Pick(4000, 60000)
+	nr := ctx.Pick(3000, 60000)
 	for i := 0; i < nr; i++ {
 		n := ctx.Rng.Intn(7)
 		res := make([]int, n)
